@@ -428,5 +428,8 @@ func Parts() []mc.Part {
 	for _, s := range specs() {
 		ps = append(ps, mc.ExplorePart(s.name, wrap(s), s.q, s.t, s.txSeq, rule))
 	}
+	for _, s := range bulkSpecs() {
+		ps = append(ps, mc.ExplorePart(s.name, wrap(s), s.q, s.t, s.txSeq, rule))
+	}
 	return ps
 }
